@@ -843,14 +843,14 @@ impl<const N: u32> PxE2<{ N }> {
             } else {
                 0
             }
-        } else if (N == 32) || (((0x_FFFF_FFFF_u32 >> N) & ui_a) == 0) {
+        } else if (N == 32) || ((u32_zero_shr(0x_FFFF_FFFF, N) & ui_a) == 0) {
             ui_a
         } else {
             let shift = 32 - N;
             if ((ui_a >> shift) != (0x_7FFF_FFFF >> shift))
-                && (((0x_8000_0000_u32 >> N) & ui_a) != 0)
+                && ((u32_zero_shr(0x_8000_0000, N) & ui_a) != 0)
                 && ((((0x_8000_0000_u32 >> (N - 1)) & ui_a) != 0)
-                    || (((0x_7FFF_FFFF_u32 >> N) & ui_a) != 0))
+                    || ((u32_zero_shr(0x_7FFF_FFFF, N) & ui_a) != 0))
             {
                 ui_a += 0x1 << shift;
             }
@@ -916,9 +916,9 @@ impl<const N: u32> PxE2<{ N }> {
 
                 let shift = 32 - N;
                 if ((u_z >> shift) != (0x_7FFF_FFFF >> shift))
-                    && (((0x_8000_0000_u32 >> N) & u_z) != 0)
+                    && ((u32_zero_shr(0x_8000_0000, N) & u_z) != 0)
                     && ((((0x_8000_0000_u32 >> (N - 1)) & u_z) != 0)
-                        || (((0x_7FFF_FFFF_u32 >> N) & u_z) != 0))
+                        || ((u32_zero_shr(0x_7FFF_FFFF, N) & u_z) != 0))
                 {
                     u_z += 0x1 << shift;
                 }
@@ -983,9 +983,9 @@ impl<const N: u32> PxE2<{ N }> {
 
             let shift = 32 - N;
             if ((u_z >> shift) != (0x_7FFF_FFFF >> shift))
-                && ((((0x_8000_0000_u32 >> N) & u_z) != 0)
+                && (((u32_zero_shr(0x_8000_0000, N) & u_z) != 0)
                     && ((((0x_8000_0000_u32 >> (N - 1)) & u_z) != 0)
-                        || (((0x_7FFF_FFFF_u32 >> N) & u_z) != 0)))
+                        || ((u32_zero_shr(0x_7FFF_FFFF, N) & u_z) != 0)))
             {
                 u_z += 0x1 << shift;
             }
@@ -1215,9 +1215,9 @@ impl<const N: u32> PxE1<{ N }> {
             let shift = 32 - N;
 
             if ((u_z >> shift) != (0x_7FFF_FFFF >> shift))
-                && (((0x_8000_0000_u32 >> N) & u_z) != 0)
+                && ((u32_zero_shr(0x_8000_0000, N) & u_z) != 0)
                 && ((((0x_8000_0000_u32 >> (N - 1)) & u_z) != 0)
-                    || (((0x_7FFF_FFFF_u32 >> N) & u_z) != 0))
+                    || ((u32_zero_shr(0x_7FFF_FFFF, N) & u_z) != 0))
             {
                 u_z += 0x1 << shift;
             }
@@ -1250,14 +1250,14 @@ impl<const N: u32> PxE1<{ N }> {
             } else {
                 0
             }
-        } else if (N == 32) || (((0x_FFFF_FFFF_u32 >> N) & ui_a) == 0) {
+        } else if (N == 32) || ((u32_zero_shr(0x_FFFF_FFFF, N) & ui_a) == 0) {
             ui_a
         } else {
             let shift = 32 - N;
             if ((ui_a >> shift) != (0x_7FFF_FFFF >> shift))
-                && (((0x_8000_0000_u32 >> N) & ui_a) != 0)
+                && ((u32_zero_shr(0x_8000_0000, N) & ui_a) != 0)
                 && (((0x_8000_0000_u32 >> (N - 1)) & ui_a) != 0
-                    || ((0x_7FFF_FFFF_u32 >> N) & ui_a) != 0)
+                    || (u32_zero_shr(0x_7FFF_FFFF, N) & ui_a) != 0)
             {
                 ui_a += 0x1 << shift;
             }
